@@ -124,6 +124,34 @@ def r2_set_is_existence_checked(ctx):
     ps = stmt_calls(ao, ctx.R, {f"{PROC}.set"})
     ok = len(ps) == 1 and dotted(kw(ps[0], "key") or (ps[0].args[0] if ps[0].args else None)) == "key" and dotted(kw(ps[0], "value") or (ps[0].args[1] if len(ps[0].args) > 1 else None)) == "value"
     ctx.check(ok, ao.qual + "#processor-key", "other override keys go through Processor.set(key, value)" if ok else "override keys bypass Processor.set", where=ao, node=ps[0] if ps else ao.node)
+    # every given override is either applied or refused: decided per path through each loop over the
+    # overrides (sa/paths.py) - no path leaves a loop early, and a path that skips a key must be
+    # complemented by another loop that handles keys of that kind
+    from sa.paths import enumerate_paths
+
+    olps = [l for l in loops_in(ao.node) if isinstance(l, ast.For) and "overrides" in names_in(l.iter)]
+    kinds: dict[bool, int] = {True: 0, False: 0}
+    skipped: list = []
+    for lp in olps:
+        for q_ in enumerate_paths(lp.body):
+            if q_.exit in ("break", "return"):
+                ctx.fail(ao.qual + "#every-override", f"`{q_.exit}` leaves the loop over the overrides when {q_.cond_texts()[:3]}: the overrides listed after that key are neither applied nor checked", where=ao, node=q_.exit_node or lp)
+                continue
+            modeish = [p_ for t_, p_ in q_.cond_texts() if "startswith" in t_]
+            is_mode = any(modeish) if modeish else None
+            applied = q_.exit == "raise" or bool(q_.called("setattr")) or bool(q_.called("set"))
+            if applied and is_mode is not None:
+                kinds[is_mode] += 1
+            elif applied:
+                kinds[True] += 1
+                kinds[False] += 1
+            else:
+                skipped.append((lp, is_mode, q_))
+    for lp, is_mode, q_ in skipped:
+        ok = is_mode is not None and kinds[is_mode] > 0
+        ctx.check(ok, ao.qual + "#every-override", "a key skipped by one pass is handled by another" if ok else f"an override is skipped without being applied or refused when {q_.cond_texts()[:3]}", where=ao, node=lp)
+    ok = bool(olps) and kinds[True] > 0 and kinds[False] > 0
+    ctx.check(ok, ao.qual + "#every-override", f"{len(olps)} loop(s) over the overrides: running-mode keys and processor keys are both applied or refused, no early exit" if ok else "not every kind of override key is applied", where=ao, node=olps[0] if olps else ao.node)
 
 
 def r3_single_resolution_rule(ctx):
@@ -183,6 +211,26 @@ def r3_single_resolution_rule(ctx):
                 if isinstance(iff, ast.If) and iff.orelse and ends_in_raise(iff.orelse):
                     good = True
         ctx.check(good, GOA + "#attr-step", "attribute step: hasattr -> getattr, else raise" if good else "a missing path component does not raise", where=g, node=walk[0] if walk else lp[0])
+    # a handler that catches the "missing component" error must leave NO object behind: otherwise the
+    # last component is looked up on whatever was resolved so far (a parent of the bogus component)
+    from sa.paths import enumerate_paths
+
+    for tr in [t for t in walk_ordered(g.node) if isinstance(t, ast.Try)]:
+        for h in tr.handlers:
+            caught = norm(h.type) if h.type is not None else "BaseException"
+            if not any(x in caught for x in ("AttributeError", "Exception", "BaseException", "LookupError", "KeyError")):
+                continue
+            bad = None
+            for q_ in enumerate_paths(h.body):
+                if q_.exit == "raise":
+                    continue
+                v_ = q_.env.get("obj")
+                if q_.exit == "return" and isinstance(q_.value, ast.Tuple) and q_.value.elts:
+                    v_ = q_.value.elts[0]
+                if not (isinstance(v_, ast.Constant) and v_.value is None):
+                    bad = q_
+                    break
+            ctx.check(bad is None, GOA + f"#unresolved-is-none:{caught}", "an unresolvable component leaves no object (None) behind" if bad is None else f"after an unresolvable component the resolver keeps {norm(v_) if v_ is not None else 'the object resolved so far'}: the last name is then looked up on a parent of the bogus component", where=g, node=h)
     mg = ctx.func("pyxel.pipelines.model_group:ModelGroup.__getattr__")
     item = mg.params[1]
     rets = [r for r in returns_of(mg) if r.value is not None]
